@@ -28,6 +28,11 @@ CFG = {
                   "The theorems are over Z for every rwRatio >= 1; the code computes in 64-bit int: C01_Int64.v wraps every arithmetic operation of "
                   "semaphore.go to int64 and proves the wrapped machine equal to the Z machine under the invariant for 1 <= rwRatio <= MaxInt64 "
                   "(the sum form of the fit test is refuted at MaxInt64); the generator includes rwRatio MaxInt, MaxInt-1, MaxInt32, 2^62.  "
+                  "Configuration: C01_Options.v models option.go (options : list opt -> cfg, no WithRwRatio => DefaultRWRatio = 10, independent of "
+                  "earlier constructor calls; a shared default object is refuted); the class ctor-history builds maps one after another with "
+                  "different option sets through all three constructors (explicit ratio, then defaults, then WithPrime only, ...) and runs each "
+                  "against the model of its own options - the rwRatio of those case terms is computed in Coq by `options` from the option list "
+                  "actually passed; 1/8 of the random schedules run on default-built maps.  "
                   "No axioms; nothing PENDING.",
     "rule": "a forced schedule is non-trivial when at some step a caller was observed queued (waiter count > 0 on some key); a stress run "
             "when more than one reader or at least one writer was seen inside a critical section; a fresh-key-burst summary when at least one round ran; a batch-cancel summary when some round saw both outcomes (nil and context error); distinct = distinct "
